@@ -943,6 +943,16 @@ def designed_cases():
     Q = np.array([[0.6, 0.8], [-0.8, 0.6]])
     add("NuclearNorm", lam, Q @ np.diag([2.5, 0.625]) @ Q.T, [])
     add("NuclearNorm", lam, np.zeros((2, 2)), [(5, [lam], [0.0])])
+    # general-position complex matrices of every aspect (wide, tall, row, column): the minimiser is U (S - lam)_+ V^H with the
+    # phases of v, so a result with conjugated / transposed phases is not optimal although its spectrum is
+    Wc = np.array([[1.5 + 0.5j, -0.25 + 2.0j, 0.75 - 1.0j], [0.5 - 1.25j, 1.0 + 0.25j, -2.0 + 0.5j]])
+    for lam_ in (0.5, 1.0):
+        add("NuclearNorm", lam_, Wc, [])
+        add("NuclearNorm", lam_, Wc.T.copy(), [])
+        add("NuclearNorm", lam_, Wc[:1, :].copy(), [])
+        add("NuclearNorm", lam_, Wc[:, :1].copy(), [])
+        add("NuclearNorm", lam_, Wc[:, :2].copy(), [])
+        add("NuclearNorm", lam_, np.real(Wc) + 0.0, [])
     # ---- phase-retrieval losses: zero entries, zero weights, al*y <, =, > 1
     sc, lam = 0.5, 1.0
     vr = np.array([0.0, 0.0, 1.5, -2.0])
